@@ -22,6 +22,7 @@ STEP = 40
 EXTRA = ["[1", "{'a':1}", "1,", "{", "]", '{"a": 1', "[1, 2", "nul", "tru", "+1", "1e", "0x", "é", "日本", "a\tb", "a\nb", "\x00", "\x1f", " ", " ",
          "1.0", "-0", "1e5", "-1.5E-3", "01", "1.", ".5", "Infinity", "NaN", "-Infinity", "true", "false", "True", "False", "None", "null",
          '"quoted"', "'quoted'", "b'x'", "[]", "{}", "()", "[[]]", '{"a": {"b": [1, null]}}', "[1, 2, 3]", "(1,)", "{1, 2}", "1 + 1", "__import__('os')",
+         "{[1]: 2}", "{{}}", "{[1, 2]}", "{{1: 2}: 3}", "{(1, [2]): 3}", "[1, 2", "(1, 2", "1 if 2 else 3", "[x for x in y]", "f'{a}'", "0o17", "1j", "b'\\xff'",
          "2020-01-01T00:00:00+00:00", "2020-01-01 00:00:00", "00:00", "P1D", "PT", "-P1D", "12345678-1234-1234-1234-123456789012", "a/b", "a+", "\\d"]
 
 
